@@ -203,6 +203,11 @@ class Engine(GenericConcreteEngine[Callable[..., Any]]):
             return result
         match relation:
             case UnaryOperationRelation(operation=operation, target=target):
+                if not isinstance(operation, (Calculation, Deduplication, Projection, Selection, Slice, Sort)):
+                    # The hook is handed the target relation and executes it
+                    # itself; executing it here as well would make eager
+                    # upstream operations consume their input twice.
+                    return self.apply_custom_unary_operation(operation, target)
                 target_rows = self.execute(target)
                 match operation:
                     case Calculation(tag=tag, expression=expression):
@@ -241,8 +246,6 @@ class Engine(GenericConcreteEngine[Callable[..., Any]]):
                                 reverse=not ascending,
                             )
                         return RowSequence(rows_list)
-                    case _:
-                        return self.apply_custom_unary_operation(operation, target)
             case BinaryOperationRelation(operation=operation, lhs=lhs, rhs=rhs):
                 match operation:
                     case Chain():
